@@ -6,7 +6,8 @@ Model of the LINE and PLANE family of `distance3d.distance` (core Lean only, pol
   `_line_segment_to_line_segment`, `line_segment_to_line_segment`;
 * `distance/_plane.py` : `_point_to_plane`, `point_to_plane`, `_line_to_plane`, `line_to_plane`,
   `_line_segment_to_plane`, `line_segment_to_plane`, `plane_intersects_plane`, `plane_to_plane`,
-  `_plane_to_convex_hull_points`, `plane_to_triangle`, `plane_to_rectangle`, `plane_to_box`;
+  `_plane_to_convex_hull_points`, `plane_to_triangle`, `plane_to_rectangle`, `plane_to_box`, and the tail of
+  `plane_to_ellipsoid` / `plane_to_cylinder` after their support-function calls (`planeToSupportPair`);
 * `geometry.py` helpers they call: `hesse_normal_form`, `convert_segment_to_line`,
   `line_from_pluecker`, `convert_rectangle_to_vertices`, `convert_box_to_vertices`.
 
@@ -402,6 +403,12 @@ def planeToRectangle (pp n c ax0 ax1 : V3 α) (l0 l1 : α) : Except Err (Res3 α
 /-- `plane_to_box` -/
 def planeToBox (pp n : V3 α) (A : Pose α) (size : V3 α) : Except Err (Res3 α) :=
   planeToHull pp n (boxVertices A size)
+
+/-- tail of `plane_to_ellipsoid` / `plane_to_cylinder` after their two support-function calls
+(`point1 = support(-plane_normal)`, `point2 = support(plane_normal)`, modelled in `D3/Model/Support.lean`):
+`_plane_to_convex_hull_points(plane_point, plane_normal, np.vstack((point1, point2)))` -/
+def planeToSupportPair (pp n point1 point2 : V3 α) : Except Err (Res3 α) :=
+  planeToHull pp n [point1, point2]
 
 end DistLine
 end D3
